@@ -118,6 +118,7 @@ class CounterInterp:
         self.visited_calls: List[Tuple[str, dict]] = []
         self.unprotected: list = []     # counter updates executed without holding the thread lock
         self._asts: Dict[int, ast.AST] = {}
+        self.surplus: list = []       # loops that release the thread lock more often than it is held
         self.call_states: Dict[int, List[State]] = {}
 
     # -- helpers ------------------------------------------------------------
@@ -542,6 +543,9 @@ class CounterInterp:
             s.v[counter_var] = Lin(0, 0)
         s.effects += 1
         s.trace.append(f'{g.loc(n)} TL.release x {count!r} DEPTH:={final!r}')
+        if final.is_const() and final.b < 0 or (s.c_known is None and final.a == 0 and final.b < 0):
+            # more releases than levels held, whatever the entry depth
+            self.surplus.append((g, n, st.copy(), count, final))
         if fmin is None or fmin < 0:
             # some release happens on an unheld lock: RuntimeError edge of the release
             relnode = rel[0]
